@@ -25,7 +25,7 @@ ASSUMPTIONS = ['content of the documented types str / bytes / int is a single pa
                'serialiser and CLI clauses are BOUNDED: enumerated malformed values, not all values']
 
 ERRORS = (None, 'L', 'm', 'Q', 'H', 'x')
-VERSIONS = (None, 1, '7', 40, 41, 0, 'M1', 'm2', 'M4', 'M5', 'abc')
+VERSIONS = (None, 1, '7', 40, 41, 0, 'M1', 'm2', 'M4', 'M5', 'abc', '0', '-1', -3, '41')      # 0 .. -3 are the library's internal Micro constants: not a documented spelling
 MODES = (None, 'byte', 'KANJI', 'nope')
 MASKS = (None, -1, 0, '3', 4, 7, 8, 'x')
 MICROS = (None, True, False)
@@ -37,6 +37,7 @@ def tasks(tier, seed):
         for mi in MICROS:
             ts.append(Task('encode.arguments[error=%r,micro=%r]' % (e, mi), MOD, 'task_encode_args', (e, mi), fuc=FUC_ENC, weight=10))
     ts.append(Task('encode.spellings', MOD, 'task_spellings', (), fuc=FUC_ENC))
+    ts.append(Task('encode_sequence.mask_arguments', MOD, 'task_sequence_mask_args', (), backend='ground', fuc=['segno.encoder.encode_sequence', 'segno.encoder.normalize_mask']))
     ts.append(Task('encode_sequence.arguments', MOD, 'task_sequence_args', (), backend='ground',
                    fuc=['segno.encoder.encode_sequence', 'segno.encoder.calc_structured_append_parity']))
     for first in COLOUR_ALPHABET + ('',):
@@ -228,6 +229,32 @@ def task_sequence_args(I):
                         if count is not None and version is None:
                             I.ground('C14.encode_sequence.symbol_count_honoured', n == count, witness=dict(args=args, n=n))
                         I.ground('C14.encode_sequence.never_micro', all(c.version >= 1 for c in res['val']), witness=dict(args=args))
+
+
+def task_sequence_mask_args(I):
+    """encode_sequence: the mask argument is validated / normalised on the single-symbol route and on the multi-symbol route alike:
+    None, 0..7 and their numeric-string spellings reach every symbol as the integer, everything else is a ValueError"""
+    enc = C.encoder()
+    f = I.get_function('segno.encoder', 'encode_sequence')
+
+    def s__encode(I, clo, args, kwargs):
+        b = I.bind_args(clo, args, kwargs)
+        return enc.Code((), b['version'], b['error'], b['mask'], b['segments'])
+    I.summaries['segno.encoder:_encode'] = s__encode
+    for content, kw in (('ABCD', dict(version=1)), ('A' * 60, dict(version=1)), ('ABCDEFGH', dict(symbol_count=2)), ('ABCD', dict(symbol_count=1))):
+        for mask in (None, 0, 3, 7, '3', '0', 8, -1, 'x', '8'):
+            res = {}
+            I.explore(lambda I: I.call_function(f, (content,), dict(kw, mask=mask)), lambda I, k, v: res.update(kind=k, val=v))
+            cm = canon_mask(mask)
+            ok_mask = cm is None or (isinstance(cm, int) and not isinstance(mask, float) and 0 <= cm <= 7)
+            wit = dict(content=content[:10], kw=kw, mask=repr(mask), outcome=res.get('kind'), value=repr(res.get('val'))[:80])
+            rp = dict(fn='replay_sequence_mask', content=content, kw=repr(kw), mask=repr(mask))
+            if ok_mask:
+                good = res.get('kind') == 'return' and all(c.mask == cm for c in res['val'])
+                I.ground('C14.encode_sequence.valid_mask_spelling_reaches_every_symbol_as_the_integer', good, witness=wit, replay=rp)
+            else:
+                I.ground('C14.encode_sequence.invalid_mask_is_ValueError', res.get('kind') == 'raise' and isinstance(res['val'], ValueError), witness=wit, replay=rp)
+    del I.summaries['segno.encoder:_encode']
 
 
 # ------------------------------------------------------------------ bounded: serialiser arguments
